@@ -582,10 +582,13 @@ class Env:
         if recv is None:
             return None
         if isinstance(recv, Sort):
-            return it.fresh(recv, f"recv{k}")
-        if isinstance(recv, staticmethod):
-            recv = recv.__func__
-        return recv(it, k)
+            r = it.fresh(recv, f"recv{k}")
+        else:
+            if isinstance(recv, staticmethod):
+                recv = recv.__func__
+            r = recv(it, k)
+        ctx.ghost.setdefault("received", []).append(r)
+        return r
 
     def drain_generator(self, it, g):
         raise Unsupported("lazy generator object")
@@ -608,7 +611,7 @@ class Env:
     def spec_decl(self, s: SpecFn):
         if s.decl is None:
             s.decl = z3.Function("spec_" + s.name, *[a.z3sort() for a in s.args], s.ret.z3sort())
-            self.spec_decls[s.decl.name()] = s
+        self.spec_decls.setdefault(s.decl.name(), s)
         return s.decl
 
     def apply_spec(self, it, s: SpecFn, args, kwargs):
@@ -643,7 +646,9 @@ class Env:
         ctx = it.ctx
         for k, f in enumerate(con.clause_list("requires")):
             r = eval_clause(it, f, ns)
-            ctx.oblige(f"{con.prop}/{con.target}/call-pre.{f.__name__}@{it.top_contract.target if it.top_contract else ''}", ops.truth_term(r))
+            from .verify import contract_tag
+
+            ctx.oblige(f"{contract_tag(it.top_contract) if it.top_contract else con.prop}/call-pre({con.target}).{f.__name__}", ops.truth_term(r))
         # exceptional outcomes
         outcomes = ["ret"] + [c for c in con.raises]
         if len(outcomes) > 1 and not ctx.pure:
@@ -669,6 +674,8 @@ class Env:
             result = ret(it, ns)
         ns2 = dict(ns)
         ns2["result"] = result
+        for k in list(ns):
+            ns2[k + "__post"] = ns[k]
         # normal return excludes the `iff`-style exceptional conditions
         for cls, cond in con.raises.items():
             if getattr(con, "raises_exact", False) and callable(cond):
@@ -680,6 +687,7 @@ class Env:
         eff = getattr(con, "effects", None)
         if eff is not None:
             eff(it, ns2)
+        ctx.trace.append(("call", con.target, {k: snapshot(v) for k, v in ns.items()}, result))
         return result
 
     # ----------------------------------------------------------------- loops
@@ -703,7 +711,9 @@ class Env:
         con, ordinal, inv = invinfo
         ctx = it.ctx
         is_for = isinstance(node, ast.For)
-        tag = f"{con.prop}/{con.target}/loop{ordinal}"
+        from .verify import contract_tag
+
+        tag = f"{contract_tag(con)}/loop{ordinal}"
         selfname = None
         fnode, *_ = function_ast(frame.fn)
         if fnode.args.args and fnode.args.args[0].arg in ("self",):
